@@ -161,11 +161,11 @@ func evalC08(c c08Case, rec *hx.Rec) error {
 			return fmt.Errorf("Set did not copy the representation")
 		}
 		// operands that are not the receiver must be unchanged bit for bit
-		if recv != p1 && !hx.SameTriple(hx.FromImpl(p1), rp) {
-			return fmt.Errorf("%s modified its first operand", c.Op)
+		if now := hx.FromImpl(p1); recv != p1 && (!hx.G.IsValid(now) || !hx.G.Equal(now, rp)) {
+			return fmt.Errorf("%s changed the group element held by its first operand", c.Op)
 		}
-		if recv != p2 && p2 != p1 && !hx.SameTriple(hx.FromImpl(p2), rq) {
-			return fmt.Errorf("%s modified its second operand", c.Op)
+		if now := hx.FromImpl(p2); recv != p2 && p2 != p1 && (!hx.G.IsValid(now) || !hx.G.Equal(now, rq)) {
+			return fmt.Errorf("%s changed the group element held by its second operand", c.Op)
 		}
 		if sf != sfCopy {
 			return fmt.Errorf("ScalarMul modified its scalar")
